@@ -32,6 +32,7 @@ type Engine struct {
 	ufuncs      map[string]*UFunc
 	fresh       int
 	Notes       map[string]bool // assumptions / abstraction notes collected during runs
+	usedTrusted map[string]bool
 }
 
 type UFunc struct {
@@ -88,7 +89,7 @@ func Load(repo string, patterns []string, specDirs []string) (*Engine, error) {
 	prog.Build()
 	e := &Engine{RepoDir: repo, Prog: prog, Pkgs: map[string]*ssa.Package{}, PPkgs: map[string]*packages.Package{},
 		Contracts: map[string]*Contract{}, Ifaces: map[string]*Contract{}, Types: map[string]*TypeSpec{},
-		SpecFuncs: map[string]*SpecFunc{}, structSorts: map[string]*Sort{}, ufuncs: map[string]*UFunc{}, Notes: map[string]bool{}}
+		SpecFuncs: map[string]*SpecFunc{}, structSorts: map[string]*Sort{}, ufuncs: map[string]*UFunc{}, Notes: map[string]bool{}, usedTrusted: map[string]bool{}}
 	for _, p := range prog.AllPackages() {
 		e.Pkgs[p.Pkg.Path()] = p
 	}
